@@ -17,6 +17,8 @@ import (
 	"golang.org/x/tools/go/ssa"
 )
 
+var progress = os.Getenv("VERIF_PROGRESS") != ""
+
 type pathEnd struct {
 	kind string // done | infeasible | failed | unsupported | unwind | hang
 	msg  string
@@ -87,6 +89,11 @@ type Exec struct {
 	curFoot    *footprint
 	pathAux    map[string]interface{}
 	assertedVars map[string]bool
+	known      map[int]bool
+	mergeDepth int
+	mergeBase  int
+	mergeDirty bool
+	noMerge    bool
 	varCache   map[int][]string
 
 	// accumulated over paths
@@ -107,6 +114,8 @@ type Exec struct {
 	Bound        int
 	MaxPaths     int
 	Truncated    bool
+	Merged       map[string]int
+	Unmerged     map[string]int
 }
 
 type obsRec struct {
@@ -116,7 +125,7 @@ type obsRec struct {
 
 func NewExec(p *Program, harness string, timeoutMs int) (*Exec, error) {
 	e := &Exec{P: p, tf: NewTF(), harness: harness, failSeen: map[string]int{}, Reached: map[string]map[string]string{},
-		Unsupported: map[string]int{}, Ends: map[string]int{}, FuncsSeen: map[string]bool{}, StubsSeen: map[string]bool{}, Bound: 400, MaxPaths: 200000,
+		Merged: map[string]int{}, Unmerged: map[string]int{}, Unsupported: map[string]int{}, Ends: map[string]int{}, FuncsSeen: map[string]bool{}, StubsSeen: map[string]bool{}, Bound: 400, MaxPaths: 200000,
 		cfg: map[string]string{}}
 	logp := ""
 	if os.Getenv("VERIF_SMTLOG") != "" {
@@ -134,6 +143,9 @@ func (e *Exec) end(kind, msg string) { panic(pathEnd{kind, msg}) }
 
 func (e *Exec) unsupported(format string, a ...interface{}) {
 	msg := fmt.Sprintf(format, a...)
+	if e.mergeDepth > 0 {
+		e.end("unsupported", msg)
+	}
 	e.Unsupported[msg]++
 	e.end("unsupported", msg)
 }
@@ -146,6 +158,9 @@ func (e *Exec) Explore(fn *ssa.Function) {
 		kind := e.runPath(fn)
 		e.Paths++
 		e.Ends[kind]++
+		if progress && (e.Paths%50 == 0 || e.Paths < 5) {
+			fmt.Fprintf(os.Stderr, "[%s] paths=%d queries=%d solver=%.1fs ends=%v fails=%d\n", e.harness, e.Paths, e.sol.Queries, e.sol.Time.Seconds(), e.Ends, len(e.Failures))
+		}
 		e.Steps += e.steps
 		if len(e.trace) > e.MaxDecisions {
 			e.MaxDecisions = len(e.trace)
@@ -191,6 +206,7 @@ func (e *Exec) resetPath() {
 	e.curFoot = nil
 	e.pathAux = map[string]interface{}{}
 	e.assertedVars = map[string]bool{}
+	e.known = map[int]bool{}
 	if e.varCache == nil {
 		e.varCache = map[int][]string{}
 	}
@@ -236,7 +252,56 @@ func (e *Exec) decide(c *Term) bool {
 	if c.Op == "bool" {
 		return c.B
 	}
+	if v, ok := e.known[c.id]; ok {
+		return v
+	}
+	r := e.decide1(c)
+	e.learn(c, r)
+	return r
+}
+
+// learn records the truth value of c (and of its obvious sub-literals) on this path.
+func (e *Exec) learn(c *Term, v bool) {
+	if _, ok := e.known[c.id]; ok {
+		return
+	}
+	e.known[c.id] = v
+	switch c.Op {
+	case "not":
+		e.learn(c.Args[0], !v)
+	case "and":
+		if v {
+			for _, a := range c.Args {
+				e.learn(a, true)
+			}
+		}
+	case "or":
+		if !v {
+			for _, a := range c.Args {
+				e.learn(a, false)
+			}
+		}
+	}
+	if c.Op != "not" {
+		n := e.tf.Not(c)
+		if _, ok := e.known[n.id]; !ok {
+			e.known[n.id] = !v
+		}
+	}
+}
+
+func (e *Exec) decide1(c *Term) bool {
 	e.decs++
+	if e.mergeDepth > 0 {
+		if e.cursor < len(e.trace) {
+			ent := &e.trace[e.cursor]
+			e.cursor++
+			return ent.val
+		}
+		e.trace = append(e.trace, traceEnt{kind: 'd', val: true, open: true, lit: c})
+		e.cursor++
+		return true
+	}
 	free := e.freeBoolLit(c)
 	e.noteVars(c)
 	if e.cursor < len(e.trace) {
@@ -290,9 +355,17 @@ func (e *Exec) assume(c *Term) {
 	if c.IsTrue() {
 		return
 	}
+	if e.mergeDepth > 0 {
+		e.mergeDirty = true
+		e.end("unsupported", "assumption inside merged call")
+	}
 	if c.IsFalse() {
 		e.end("infeasible", "assume(false)")
 	}
+	if v, ok := e.known[c.id]; ok && v {
+		return
+	}
+	e.learn(c, true)
 	e.noteVars(c)
 	if e.cursor < len(e.trace) {
 		ent := &e.trace[e.cursor]
@@ -321,6 +394,10 @@ func (e *Exec) assume(c *Term) {
 func (e *Exec) assumeFresh(c *Term) {
 	if c.IsTrue() {
 		return
+	}
+	if e.mergeDepth > 0 {
+		e.mergeDirty = true
+		e.end("unsupported", "input inside merged call")
 	}
 	e.noteVars(c)
 	if e.cursor < len(e.trace) {
@@ -406,6 +483,9 @@ func (e *Exec) posOf(fr *Frame, ins ssa.Instruction) string {
 
 // fail records a violation on the current path (with a model) and ends the path.
 func (e *Exec) fail(kind, assertID, site, msg, pos string) {
+	if e.mergeDepth > 0 {
+		e.end("failed", "failure inside merged call")
+	}
 	e.recordFailure(kind, assertID, site, msg, pos, nil)
 	e.end("failed", kind+": "+msg)
 }
@@ -748,6 +828,10 @@ func (e *Exec) store(p Ptr, v Value) {
 		e.curFoot.write(p, e)
 	}
 	e.writes++
+	if e.mergeDepth > 0 && p.Obj.ID <= e.mergeBase {
+		e.mergeDirty = true
+		e.end("unsupported", "heap write inside merged call")
+	}
 	p.Obj.V = setPath(p.Obj.V, p.Path, v)
 }
 
@@ -799,6 +883,16 @@ func (e *Exec) callAt(fn *ssa.Function, args []Value, free []Value, callerFrame 
 	if !isHarnessFunc(fn) {
 		e.FuncsSeen[name] = true
 	}
+	if e.mergeable(fn) {
+		if v, ok := e.tryMerge(fn, args, free, callerFrame, site); ok {
+			return v
+		}
+	}
+	return e.callBody(fn, args, free, callerFrame, site)
+}
+
+func (e *Exec) callBody(fn *ssa.Function, args []Value, free []Value, callerFrame *Frame, site ssa.Instruction) Value {
+	name := fn.String()
 	fr := &Frame{fn: fn, env: map[ssa.Value]Value{}, free: free, visits: map[*ssa.BasicBlock]int{}, caller: callerFrame, site: site}
 	for i, p := range fn.Params {
 		fr.env[p] = args[i]
@@ -877,6 +971,9 @@ func (e *Exec) run(fr *Frame) Value {
 		}
 		for _, ins := range blk.Instrs[nphi:] {
 			e.steps++
+			if progress && e.steps%200000 == 0 {
+				fmt.Fprintf(os.Stderr, "[steps=%d in %s trace=%d cursor=%d queries=%d]\n", e.steps, fr.fn, len(e.trace), e.cursor, e.sol.Queries)
+			}
 			switch x := ins.(type) {
 			case *ssa.If:
 				c := e.eval(fr, x.Cond).(*Term)
